@@ -165,7 +165,15 @@ impl Script {
             sut_transport: None,
             authority: "localhost".into(),
             path: "/scen".into(),
-            burn: 0,
+            // server role: the session is not always on the first request stream — every few
+            // scripts it sits on stream 4, 8 or 20, where session id and quarter stream id differ
+            burn: match role {
+                Role::Server => {
+                    static N: std::sync::atomic::AtomicUsize = std::sync::atomic::AtomicUsize::new(0);
+                    [0usize, 0, 1, 0, 0, 2, 0, 5][N.fetch_add(1, std::sync::atomic::Ordering::Relaxed) % 8]
+                }
+                Role::Client => 0,
+            },
         }
     }
 }
